@@ -33,6 +33,14 @@ Lemma reduce_routes c multi r :
   reduce_route c multi r = match c, multi with CScaled, false => RedApplyGrid r | _, _ => RedMaterialised r end.
 Proof. destruct c, multi, r; reflexivity. Qed.
 
+(* the shapes the translator recognised (a definition goes MISSING from Gen/GenViews.v when the source changes shape) *)
+Lemma view_shapes :
+  sfv_value_is_masked_shifted = true /\ sfv_getitem_keeps_mask = true
+  /\ sav_value_is_apply_scale = true /\ sav_apply_scale = ScaleMulAdd /\ sav_remove_scale = UnscaleSubDivRound
+  /\ av_ufunc_converts_then_applies = true /\ av_function_converts_then_applies = true
+  /\ av_convert_recurses_lists_tuples = true.
+Proof. repeat split; reflexivity. Qed.
+
 (* ---------------------------------------------------------------------------------------------- *)
 (* _convert_array_views_to_array                                                                   *)
 (* ---------------------------------------------------------------------------------------------- *)
